@@ -144,3 +144,137 @@ SPECS_MEM = [
       kind="proc", ret="L:WR", state=ST2, params=PAT_PARAMS + ST2_PARAMS + [("intervals", "LIST")],
       locals={"results": "L:WR"}, statecalls={"self._remove_series": REMOVE_SERIES_CALL}),
 ]
+
+# ------------------------------------------------------------------------------------------------
+# the add side: metadata dictionaries (T9).  KEY = a field name (str), VAL = a field value that is not None.
+DICT_T = "list (KEY * option VAL)"
+DICTS = {"DICT": dict(key="KEY", val="O:VAL", eqb="key_eqb")}
+ADD_TYPES = dict(TYPES, KEY="KEY", VAL="VAL", START="START", TZ="TZ")
+
+ANCHOR_BLOCK = dict(
+    stmts=["start: datetime | int",
+           "tz: str | None",
+           "if pattern.anchor_timestamp is not None:\n"
+           "    start = datetime.fromtimestamp(pattern.anchor_timestamp, tz=pattern.zone)\n"
+           "    wall = start.replace(hour=pattern.start_seconds // 3600, minute=pattern.start_seconds % 3600 // 60, "
+           "second=pattern.start_seconds % 60)\n"
+           "    if int(wall.timestamp()) == pattern.anchor_timestamp:\n"
+           "        start = wall\n"
+           "    tz = None\n"
+           "else:\n"
+           "    start = pattern.start_seconds\n"
+           "    tz = str(pattern.zone)"],
+    reads=[("pattern", "PAT")],
+    binds=[("start", "(anchor_start pattern)", "START"), ("tz", "(anchor_tz pattern)", "TZ")])
+
+NEW_PATTERN = ("RecurringPattern(freq=cast(Literal['daily', 'weekly', 'monthly', 'yearly'], pattern.freq), "
+               "interval=pattern.interval, duration=pattern.duration_seconds, start=start, tz=tz, "
+               "interval_class=pattern.interval_class, exdates=pattern.exdates, "
+               "**_get_recurrence_params(pattern), **merged_metadata)")
+
+SPECS_MEM += [
+    # _add_interval: container defaults fill the fields that are missing or None; SortedList.add
+    dict(name="g_mem_add_interval", file=MEM, cls="MemoryTimeline", func="_add_interval", kind="proc", ret="L:WR",
+         tyvars=["KEY", "VAL"], types=ADD_TYPES, dicts=DICTS, state=["self_static_intervals"],
+         params=[("key_eqb", "KEY -> KEY -> bool"), ("replace_fields", "ivl -> " + DICT_T + " -> ivl"),
+                 ("self_metadata", "DICT"), ("self_static_intervals", "LIST"), ("interval", "IVL"), ("metadata", "DICT")],
+         selfattrs={"metadata": ("self_metadata", "DICT"), "_static_intervals": ("self_static_intervals", "LIST")},
+         calls=dict(WRITE_RESULT, replace=dict(coq="replace_fields", args=["IVL"], kw=[("**", "DICT")], ret="IVL")),
+         effects={"cast(SortedList, self._static_intervals).add":
+                  dict(var="self_static_intervals", args=["IVL"], update="(sl_add {0} {var})")}),
+    # _add_recurring: the id, the metadata of the stored pattern; the anchor block and the constructor call are
+    # functions of what they read (T1)
+    dict(name="g_mem_add_recurring", file=MEM, cls="MemoryTimeline", func="_add_recurring", kind="proc", ret="L:WR",
+         tyvars=["ID", "PAT", "KEY", "VAL", "START", "TZ"], types=ADD_TYPES, tuples=TUPLES, dicts=DICTS,
+         state=["self_recurring_patterns", "self_series_seq"],
+         params=[("key_eqb", "KEY -> KEY -> bool"), ("make_id", "PAT -> N -> ID"),
+                 ("pattern_metadata", "PAT -> " + DICT_T), ("class_has_annotations", "PAT -> bool"),
+                 ("class_annotations", "PAT -> list KEY"), ("key_recurring_event_id", "KEY"),
+                 ("val_of_id", "ID -> VAL"), ("anchor_start", "PAT -> START"), ("anchor_tz", "PAT -> TZ"),
+                 ("make_pattern", "PAT -> START -> TZ -> " + DICT_T + " -> PAT"),
+                 ("self_metadata", "DICT"), ("self_recurring_patterns", "L:ENT"), ("self_series_seq", "N"),
+                 ("pattern", "PAT"), ("metadata", "DICT")],
+         selfattrs={"metadata": ("self_metadata", "DICT"), "_recurring_patterns": ("self_recurring_patterns", "L:ENT"),
+                    "_series_seq": ("self_series_seq", "N")},
+         calls=WRITE_RESULT, binops={("N", "+", "Z"): ("N_plus_Z", "N")},
+         attrs={("PAT", "metadata"): ("pattern_metadata", "DICT")},
+         annotations={"set[str]": "L:KEY"}, eqbs={"KEY": "key_eqb"},
+         strconsts={"recurring_event_id": ("key_recurring_event_id", "KEY")},
+         casts={("ID", "O:VAL"): "(Some (val_of_id {0}))"},
+         abstract_blocks=[ANCHOR_BLOCK],
+         text_exprs={"f'{id(pattern)}-{self._series_seq}'": ("(make_id pattern self_series_seq)", "ID"),
+                     "set()": ("(@nil KEY)", "L:KEY"),
+                     "hasattr(pattern.interval_class, '__annotations__')": ("(class_has_annotations pattern)", "B"),
+                     "set(pattern.interval_class.__annotations__.keys())": ("(class_annotations pattern)", "L:KEY"),
+                     NEW_PATTERN: ("(make_pattern pattern start tz merged_metadata)", "PAT")},
+         effects={"self._recurring_patterns.append":
+                  dict(var="self_recurring_patterns", args=["ENT"], update="({var} ++ [{0}])")}),
+]
+
+# ------------------------------------------------------------------------------------------------
+# MutableTimeline: the dispatch on the kind of argument (T8, T11).  ST = the state of the backend.
+IMPORTS = ["from calgebra.core import Timeline", "from calgebra.interval import Interval, IvlOut",
+           "from calgebra.recurrence import RecurringPattern"]
+_NO = {"isinstance({x}, Interval)": ("false", "B"), "isinstance({x}, RecurringPattern)": ("false", "B"),
+       "isinstance({x}, Timeline)": ("false", "B")}
+ADDITEM = {"ADDITEM": dict(
+    coq="(additem PAT)", ctors=[("AIvl", [("i", "IVL")]), ("APat", [("p", "PAT")]), ("ATimeline", []), ("AMany", [("l", "LIST")])],
+    exprs={"AIvl": dict(_NO, **{"isinstance({x}, Interval)": ("true", "B"), "{x}": ("{i}", "IVL")}),
+           "APat": dict(_NO, **{"isinstance({x}, RecurringPattern)": ("true", "B"), "isinstance({x}, Timeline)": ("true", "B"),
+                                "{x}": ("{p}", "PAT")}),
+           "ATimeline": dict(_NO, **{"isinstance({x}, Timeline)": ("true", "B")}),
+           "AMany": dict(_NO, **{"{x}": ("{l}", "LIST")})})}
+REMITEM = {"REMITEM": dict(
+    coq="remitem", ctors=[("RIvl", [("i", "IVL")]), ("RMany", [("l", "LIST")])],
+    exprs={"RIvl": {"isinstance({x}, Interval)": ("true", "B"), "{x}": ("{i}", "IVL")},
+           "RMany": {"isinstance({x}, Interval)": ("false", "B"), "{x}": ("{l}", "LIST")}})}
+MT_TYPES = dict(ADD_TYPES, ST="ST")
+WR_T = "ST * list wres"
+
+
+def one(name, args, ret="L:WR"):
+    return dict(call="(" + name + " self_state " + " ".join("{%d}" % i for i in range(len(args))) + ")",
+                vars=["self_state"], args=args, ret=ret)
+
+
+SPECS_MEM += [
+    dict(name="g_mt_remove", file=MUT, cls="MutableTimeline", func="remove", kind="proc", ret="L:WR", file_has=IMPORTS,
+         tyvars=["ST"], types=MT_TYPES, sums=REMITEM, state=["self_state"],
+         params=[("remove_interval", "ST -> ivl -> " + WR_T), ("remove_many", "ST -> list ivl -> " + WR_T),
+                 ("self_state", "ST"), ("items", "REMITEM")],
+         statecalls={"self._remove_interval": one("remove_interval", ["IVL"]),
+                     "self._remove_many": one("remove_many", ["LIST"])}),
+    dict(name="g_mt_remove_series", file=MUT, cls="MutableTimeline", func="remove_series", kind="proc", ret="L:WR",
+         file_has=IMPORTS, tyvars=["ST"], types=MT_TYPES, sums=REMITEM, state=["self_state"],
+         params=[("remove_series", "ST -> ivl -> " + WR_T), ("remove_many_series", "ST -> list ivl -> " + WR_T),
+                 ("self_state", "ST"), ("items", "REMITEM")],
+         statecalls={"self._remove_series": one("remove_series", ["IVL"]),
+                     "self._remove_many_series": one("remove_many_series", ["LIST"])}),
+    dict(name="g_mt_add", file=MUT, cls="MutableTimeline", func="add", kind="proc", ret="L:WR", res=True, file_has=IMPORTS,
+         tyvars=["ST", "PAT", "KEY", "VAL"], types=MT_TYPES, dicts=DICTS, sums=ADDITEM, state=["self_state"], kwarg="DICT",
+         params=[("key_eqb", "KEY -> KEY -> bool"), ("vars_of", "ivl -> " + DICT_T),
+                 ("add_interval", "ST -> ivl -> " + DICT_T + " -> " + WR_T),
+                 ("add_recurring", "ST -> PAT -> " + DICT_T + " -> " + WR_T),
+                 ("add_many", "ST -> list ivl -> " + DICT_T + " -> " + WR_T),
+                 ("self_state", "ST"), ("item", "ADDITEM"), ("metadata", "DICT")],
+         calls={"vars": ("vars_of", ["IVL"], "DICT")},
+         statecalls={"self._add_interval": one("add_interval", ["IVL", "DICT"]),
+                     "self._add_recurring": one("add_recurring", ["PAT", "DICT"]),
+                     "self._add_many": one("add_many", ["LIST", "DICT"])}),
+    dict(name="g_mt_add_many", file=MUT, cls="MutableTimeline", func="_add_many", kind="proc", ret="L:WR",
+         tyvars=["ST", "KEY", "VAL"], types=MT_TYPES, dicts=DICTS, state=["self_state"], locals={"results": "L:WR"},
+         params=[("key_eqb", "KEY -> KEY -> bool"), ("vars_of", "ivl -> " + DICT_T),
+                 ("add_interval", "ST -> ivl -> " + DICT_T + " -> " + WR_T),
+                 ("self_state", "ST"), ("intervals", "LIST"), ("metadata", "DICT")],
+         calls={"vars": ("vars_of", ["IVL"], "DICT")},
+         statecalls={"self._add_interval": one("add_interval", ["IVL", "DICT"])}),
+    # the default batch removals of the base class (MemoryTimeline overrides them with the same text)
+    dict(name="g_mt_remove_many", file=MUT, cls="MutableTimeline", func="_remove_many", kind="proc", ret="L:WR",
+         tyvars=["ST"], types=MT_TYPES, state=["self_state"], locals={"results": "L:WR"},
+         params=[("remove_interval", "ST -> ivl -> " + WR_T), ("self_state", "ST"), ("intervals", "LIST")],
+         statecalls={"self._remove_interval": one("remove_interval", ["IVL"])}),
+    dict(name="g_mt_remove_many_series", file=MUT, cls="MutableTimeline", func="_remove_many_series", kind="proc",
+         ret="L:WR", tyvars=["ST"], types=MT_TYPES, state=["self_state"], locals={"results": "L:WR"},
+         params=[("remove_series", "ST -> ivl -> " + WR_T), ("self_state", "ST"), ("intervals", "LIST")],
+         statecalls={"self._remove_series": one("remove_series", ["IVL"])}),
+]
